@@ -1,0 +1,6 @@
+//go:build verif
+
+package markup
+
+// VerifAccessors returns the accessor list the real NewParser built (read-only).
+func (ps *Parser) VerifAccessors() []Accessor { return ps.accessors }
